@@ -182,7 +182,7 @@ def stopPhase (s : St) : St × Bool :=
   | [] => ({ s with stopWaker := true }, false)
   | (k, graceful) :: rest =>
     let s0 := { s with stopQ := rest }
-    if s0.raw = 0 then (setFault s0 .underflow, true)
+    if s0.raw = 0 then (setFault (emit s0 [.replyGone k]) .underflow, true)   -- the unwinding drops `tx`
     else if Src.wcTotal s0.raw = 0 then (finish (emit s0 [.reply k true]) false, true)
     else if graceful then
       let s1 := shutdownSvcs s0 false
@@ -223,18 +223,19 @@ def release (s : St) : List Conn → St
     if s.raw = 0 then setFault { s with queue := c :: q } .underflow
     else release { (emit s [.released c]) with raw := s.raw - 1 } q
 
+/-- the `while let Poll::Ready(Some(conn)) = conn_rx.poll_recv(cx)` loop of the `Shutdown` arm: every
+queued connection is released; an open, empty channel registers the task waker -/
+def drained (s : St) : St :=
+  if (release s s.queue).chanOpen then { (release s s.queue) with connWaker := true } else release s s.queue
+
 /-- the `Shutdown` arm (worker.rs:663-695) -/
 def shutdownArm (s : St) (timerAt startFrom tx : Nat) : St :=
-  let s1 := release s s.queue
-  if s1.fault.isSome then s1 else
-  let s2 := if s1.chanOpen then { s1 with connWaker := true } else s1
-  if s2.now < timerAt then s2
-  else if s2.raw = 0 then setFault s2 .underflow
-  else if Src.wcTotal s2.raw = 0 then finish (emit s2 [.reply tx true]) true
-  else if Src.wkTimedOut (s2.now - startFrom) s2.timeout then finish (emit s2 [.reply tx false]) true
-  else
-    let t := s2.now + Src.wkTickNextMs
-    { (emit s2 [.armTimer t]) with state := .shutdown t startFrom tx }
+  if (release s s.queue).fault.isSome then release s s.queue
+  else if (drained s).now < timerAt then drained s
+  else if (drained s).raw = 0 then setFault (drained s) .underflow
+  else if Src.wcTotal (drained s).raw = 0 then finish (emit (drained s) [.reply tx true]) true
+  else if Src.wkTimedOut ((drained s).now - startFrom) (drained s).timeout then finish (emit (drained s) [.reply tx false]) true
+  else { (emit (drained s) [.armTimer ((drained s).now + Src.wkTickNextMs)]) with state := .shutdown ((drained s).now + Src.wkTickNextMs) startFrom tx }
 
 /-- `Restarting` arm, factory future resolved `Ok((token, service))` (`token == token_new` holds by
 construction: factory `i` builds services for token `i`): `services[token].created(service)` -/
@@ -349,5 +350,42 @@ structure Cfg where
 /-- state after `ServerWorker::start`: every service created once, status `Unavailable` -/
 def init (cfg : Cfg) : St :=
   { n := cfg.n, timeout := cfg.timeout, svc := fun i => { (cfg.svcs i) with status := .unavailable, inc := 0 } }
+
+/-! ### the shutdown timing, functionally (C06 `stop_completes`)
+
+The environment is a script `fin`: for every connection in progress when the worker takes the
+`Stop`, the time (absolute, ms) at which it ends, or `none` if it never does. -/
+
+/-- connections of the script still in progress at time `t` (one that ends at `t` has ended) -/
+def unfinished (fin : List (Option Nat)) (t : Nat) : Nat :=
+  (fin.filter fun o => match o with | none => true | some x => decide (t < x)).length
+
+/-- the `k`-th tick (`k ≥ 1`) of a shutdown started at `t0`, the worker being polled when its timer fires -/
+def tickTime (t0 k : Nat) : Nat := t0 + Src.wkTickFirstMs + (k - 1) * Src.wkTickNextMs
+
+/-- the tick loop of the `Shutdown` arm from tick `k` on (`f` further ticks): (reply time, reply value) -/
+def tickLoop (T t0 : Nat) (fin : List (Option Nat)) : Nat → Nat → Nat × Bool
+  | k, 0 => (tickTime t0 k, false)
+  | k, f + 1 =>
+    if unfinished fin (tickTime t0 k) = 0 then (tickTime t0 k, true)
+    else if Src.wkTimedOut (tickTime t0 k - t0) T then (tickTime t0 k, false)
+    else tickLoop T t0 fin (k + 1) f
+
+/-- number of the tick at which `shutdown_timeout` has certainly elapsed -/
+def lastTick (T : Nat) : Nat := (T + Src.wkTickNextMs - 1) / Src.wkTickNextMs + 1
+
+/-- when and what a worker that takes a graceful `Stop` at `t0` replies -/
+def replyTime (T t0 : Nat) (fin : List (Option Nat)) : Nat × Bool :=
+  if unfinished fin t0 = 0 then (t0, true) else tickLoop T t0 fin 1 (lastTick T)
+
+/-- the environment at a tick: the clock is at `t`, the counter counts the connections still in progress -/
+def envTick (s : St) (t : Nat) (fin : List (Option Nat)) : St := { s with now := t, raw := Src.wcInit + unfinished fin t }
+
+/-- poll the worker at every tick from tick `k` on until it finishes (at most `f` ticks) -/
+def runTicks (fin : List (Option Nat)) (start : Nat) : St → Nat → Nat → St
+  | s, _, 0 => s
+  | s, k, f + 1 =>
+    if (pollW 1 (envTick s (tickTime start k) fin)).finished then pollW 1 (envTick s (tickTime start k) fin)
+    else runTicks fin start (pollW 1 (envTick s (tickTime start k) fin)) (k + 1) f
 
 end ActixNet.Worker
